@@ -527,6 +527,11 @@ def _strand(res, L, case, part, nz):
         ok, det = cmp.same(got.value, np.array(exp), exact=True) if got.ok else (
             False, {"exc": repr(got.exc)})
         res.check("strand_count", ok, "strand/a/%s" % attr, det)
+        if vc and got.ok and any(isinstance(e, tuple) and e[2] for e in elems):
+            g_ = np.asarray(got.value, dtype=float)
+            dpos = [k for k, e in enumerate(elems) if isinstance(e, tuple) and e[2]]
+            res.observations["O7:strand %s of a difference in a valid-count response is %s" % (
+                attr, "nan" if np.all(np.isnan(g_[dpos])) else "numeric")] += 1
         if got.ok and any(isinstance(e, tuple) and x != 0 for e, x in zip(elems, exp)):
             nz[0] = True
     sub_pos = [k for k, e in enumerate(elems) if isinstance(e, tuple)]
